@@ -25,6 +25,19 @@ func checkC10(c *mc.Ctx) {
 	c.Ev.Level = "model_checking"
 	c.Ev.Rule = "the CRC register is treated as a transition system (2^32 states x 256 input bytes): the library's one-step transition updateCRC32(s,[b]) is compared with a bit-serial LFSR for enumerated (state, byte) pairs (by induction over the message length one-step agreement for all pairs is agreement for every byte string); plus all 256 table entries, all messages of length 0..2, every split point of a message family, residue 0; distinct_nontrivial = distinct (state, byte) pairs / messages"
 	c.Ev.Assumptions = append(c.Ev.Assumptions, "reference: one-bit-per-step LFSR with polynomial 0x04C11DB7 (ISO/IEC 13818-1 annex A)")
+	// the very first checksum work of this process is a piecewise update (no one-pass call before it): the
+	// value must not depend on which entry point was used first (lazily built state)
+	{
+		msg := []byte{0x00, 0xb0, 0x0d, 0x00, 0x01, 0xc1, 0x00, 0x00, 0x00, 0x01, 0xf0, 0x00, 0x12, 0x34, 0x56, 0x78, 0x9a}
+		for split := 0; split <= len(msg); split++ {
+			got := astits.VerifUpdateCRC32(astits.VerifUpdateCRC32(0xffffffff, msg[:split]), msg[split:])
+			if want := ref.CRC(msg); got != want {
+				c.Rep.Report("pieces-before-any-one-pass-call", map[string]any{"kind": "crc", "split": split, "got": got, "want": want, "message": fmt.Sprintf("first calls of the process: update(update(init, m[:%d]), m[%d:]) = %#x, LFSR gives %#x", split, split, got, want)})
+				break
+			}
+		}
+		c.Ev.Class("pieces-before-one-pass", 1)
+	}
 	tab := astits.VerifCRC32Table()
 	bad := 0
 	for i := 0; i < 256; i++ {
